@@ -263,16 +263,30 @@ def run_case(op, a):
 def worker_main(spec_path):
     import logging
     logging.getLogger("sqlglot").setLevel(logging.CRITICAL)
+    import signal
+
+    class _Timeout(Exception):
+        pass
+
+    def _alarm(signum, frame):
+        raise _Timeout()
+
+    signal.signal(signal.SIGALRM, _alarm)
     spec = json.load(open(spec_path))
     out = {}
     for idx in spec["order"]:
         cid, op, a = spec["cases"][idx]
+        signal.setitimer(signal.ITIMER_REAL, 8.0)
         try:
             out[cid] = run_case(op, a)
+        except _Timeout:
+            out[cid] = "EXC:Timeout"
         except RecursionError:
             out[cid] = "EXC:RecursionError"
         except Exception as e:  # noqa
             out[cid] = "EXC:" + type(e).__name__
+        finally:
+            signal.setitimer(signal.ITIMER_REAL, 0)
     json.dump(out, sys.stdout)
 
 
